@@ -19,6 +19,25 @@ def m_k2(v, f):
 MATCHERS = {"adjusted_rule_with_unserialisable_parse_error": m_k2}
 
 
+def count_comments(text):
+    """the non-empty comments anywhere in a stylesheet (top level, preludes, blocks, declaration values),
+    in order; the empty comment is what tinycss2's serialiser puts between two tokens that would otherwise
+    fuse ('2n' '+1' -> '2n/**/+1'), so it carries nothing and is not counted"""
+    import tinycss2
+
+    def walk(tokens):
+        n = []
+        for t in tokens:
+            if t.type == "comment" and t.value != "":
+                n.append(t.value)
+            for attr in ("content", "prelude", "arguments"):
+                sub = getattr(t, attr, None)
+                if sub:
+                    n += walk(sub)
+        return n
+    return walk(tinycss2.parse_stylesheet(text, skip_whitespace=False, skip_comments=False))
+
+
 def check(run):
     run.proof = proof_status("C09")
     q = run.quick()
@@ -98,6 +117,9 @@ def check(run):
                 run.violation("the output is not valid UTF-8 CSS", case, details={"file": k, "error": repr(e)}); continue
             if has_unserialisable(ast_out) and not skipped:
                 run.violation("the output contains parse errors the input did not", case, details={"file": k})
+            ci, co = count_comments(text), count_comments(out[1].decode("utf-8"))
+            if ci != co:
+                run.violation("comments were lost or added", case, details={"file": k, "comments_in_input": ci, "comments_in_output": co})
             base = k.rsplit("/", 1)[-1]
             sel_adj = adjusted.get(base, set())
             for (kind, path, sel, det) in cli_common.all_diffs(ast_in, ast_out):
